@@ -8,6 +8,7 @@ import (
 	"encoding/hex"
 	"encoding/json"
 	"fmt"
+	"hash/crc32"
 	"io"
 	"os"
 	"path/filepath"
@@ -774,6 +775,15 @@ func zipSpecs(thorough bool) []zipSpec {
 				}
 			}
 		}
+	}
+	// two different contents of equal length and equal CRC-32 (the zip format's per-entry checksum is not a
+	// content identity), in one archive, in both orders, next to a true duplicate
+	c1, c2 := "const N = 29685295", "const N = 32060020"
+	if crc32.ChecksumIEEE([]byte(c1)) == crc32.ChecksumIEEE([]byte(c2)) {
+		out = append(out,
+			zipSpec{"example.com/m", "v1.0.0", []memfile.File{memfile.Reg("x.go", c1), memfile.Reg("y.go", c2), memfile.Reg("z.go", c1)}},
+			zipSpec{"example.com/m", "v1.0.0", []memfile.File{memfile.Reg("a/x.go", c2), memfile.Reg("b/x.go", c1)}},
+			zipSpec{"example.com/m", "v1.0.0", []memfile.File{memfile.Reg("go.mod", "module example.com/m\n"), memfile.Reg("p.go", c1+"\n"+c1), memfile.Reg("q.go", c1+"\n"+c2), memfile.Reg("r.go", c2+"\n"+c1)}})
 	}
 	return out
 }
